@@ -229,6 +229,47 @@ example : ∃ d i Ls, writeProgram 4713 demoProgram = some (d, i) ∧ programSeg
     obtain ⟨Ls, hp, h, _⟩ := checkWritten_ok 4713 (by decide) demoProgram d i hw (by decide +kernel)
     exact ⟨d, i, Ls, rfl, hp, h⟩
 
+/-! ## Objects in force (segments that do not start a new object list inherit the previous one) -/
+
+/-- every segment the writer model emits starts a new object list -/
+theorem expectedSeg_startsNewList (v : Nat) (objs : List WObj) : startsNewList (expectedSeg v objs) = true := by
+  have h : (tocWritten / kTocNewObjList) % 2 == 1 := by decide
+  simpa [startsNewList, expectedSeg] using h
+
+/-- ... and its raw data length is the one its own objects imply, so the objects-in-force condition holds for everything the
+    writer model emits, whatever came before -/
+theorem inForceOk_written (v : Nat) (L : List (List WObj)) (prev : List PObj) :
+    inForceOk prev (L.map (expectedSeg v)) = true := by
+  induction L generalizing prev with
+  | nil => rfl
+  | cons objs rest ih =>
+    simp only [List.map_cons, inForceOk, expectedSeg_startsNewList, if_true, Bool.and_eq_true, beq_iff_eq]
+    refine ⟨?_, ih _⟩
+    simp only [expectedSeg]
+    rw [expectedDataLength_eq]
+    omega
+
+/-- `checkWritten_ok` with the objects-in-force condition added: what the C08 check runs on the real writer's bytes -/
+theorem checkWrittenInForce_ok (v : Nat) (hv : v < 2 ^ 31) (prog : List (List (List WObj))) (d i : Bytes)
+    (hw : writeProgram v prog = some (d, i)) (hW : WritableProgram prog) :
+    ∃ Ls, programSegs prog = some Ls ∧
+      checkWrittenInForce d (some i) = .ok (Ls.flatten.map (expectedSeg v)) ∧
+      checkWrittenInForce d none = .ok (Ls.flatten.map (expectedSeg v)) := by
+  obtain ⟨Ls, hp, h1, h2⟩ := checkWritten_ok v hv prog d i hw hW
+  refine ⟨Ls, hp, ?_, ?_⟩ <;>
+  · simp only [checkWrittenInForce, h1, h2, bind, Except.bind, inForceOk_written, if_true]
+    rfl
+
+/-- a segment that inherits a channel it does not restate must carry that channel's data too: two values of `a` and one of `b`,
+    then a segment WITHOUT `kTocNewObjList` listing only `a` with two values — 8 bytes of raw data are 4 too few -/
+example :
+    let a : PObj := ⟨[0x2f, 0x27, 0x61, 0x27], some (3, 2, none), []⟩
+    let b : PObj := ⟨[0x2f, 0x27, 0x62, 0x27], some (3, 1, none), []⟩
+    let s1 : PSeg := ⟨false, 14, 4713, 112, 100, [a, b], []⟩
+    let s2 : PSeg := ⟨false, 10, 4713, 58, 50, [a], []⟩
+    inForceOk [] [s1, s2] = false ∧ inForceOk [] [s1, { s2 with toc := 14 }] = true := by
+  decide
+
 /-- the strict parser does reject malformed input: a wrong index length field, a truncated file -/
 example : (pSegment true (writeSegment false 4713 [.channel [0x67] [0x61] ⟨3, [[1, 0, 0, 0]]⟩ []]).dropLast).isOk = false := by
   decide
